@@ -77,19 +77,26 @@ def build(engine):
     mod, binname, flags = ENGINES[engine]
     os.makedirs(BIN, exist_ok=True)
     moddir = os.path.join(VERIF, mod)
-    gosum = os.path.join(moddir, "go.sum")
-    if not os.path.exists(gosum):
-        shutil.copy("/repo/utils/go.sum", gosum)
+    # the module file points at the repository under test: /repo unless VERIF_REPO says otherwise
+    # (used for background sweeps against a snapshot while /repo itself is being edited)
+    repo = os.environ.get("VERIF_REPO", "/repo")
+    modfile = os.path.join(BUILD, "go.sim.mod")
+    os.makedirs(BUILD, exist_ok=True)
+    with open(os.path.join(moddir, "go.mod")) as f:
+        modtext = f.read().replace("=> /repo/utils", "=> %s/utils" % repo)
+    with open(modfile, "w") as f:
+        f.write(modtext)
+    shutil.copy(os.path.join(repo, "utils", "go.sum"), os.path.join(BUILD, "go.sim.sum"))
     out = os.path.join(BIN, binname)
     if engine == "proc":
         build_helper()
-    cmd = [GO126, "test", "-c", "-tags", "verif", "-o", out] + flags + ["."]
+    cmd = [GO126, "test", "-c", "-modfile", modfile, "-tags", "verif", "-o", out] + flags + ["."]
     t0 = time.time()
     r = subprocess.run(cmd, cwd=moddir, env=GOENV, stdout=subprocess.PIPE, stderr=subprocess.STDOUT, text=True)
     if r.returncode != 0:
         log("BUILD FAILED (exit 2):\n" + r.stdout[-6000:])
         sys.exit(2)
-    log("built %s from /repo working tree in %.1fs" % (binname, time.time() - t0))
+    log("built %s from %s working tree in %.1fs" % (binname, repo, time.time() - t0))
     return out
 
 
